@@ -8,6 +8,7 @@ correspondence: S-wrap replay with the stop raised inside callback k (objective 
 monitor:        for every algorithm and nesting, every k in 1..K: number of further callback invocations <= bound(family), code
                 FORCED_STOP, value readable, x inside the bounds, and a second run on the same object starts with the flag cleared"""
 import random
+from ..common import hexd
 
 from .. import runcheck, monitors, problems, swrap
 
@@ -123,12 +124,36 @@ def run(ctx):
                 p["obj"] = rng.choice([0, 1])
                 p["quietx"] = 1
                 conv.append(p)
+        # the same with constraints: the last callbacks of a converging (or stopval-reaching) constrained run are CONSTRAINT callbacks
+        # (inequalities, then equalities); a stop raised inside one of them during the run's final evaluation must still win
+        nconv0 = len(conv)
+        for nm in problems.ALL:
+            aid = A.id(nm)
+            if aid not in A.d["ineq"] and aid not in A.d["eq"]:
+                continue
+            for rep in range(6 if ctx.thorough else 3):
+                n = rng.choice([2, 3])
+                p = problems.gen_problem(rng, A, alg_name=nm, n=n, maxeval=(1500 if nm not in problems.GLOBAL else 400), with_constraints=True, box="finite", allow_max=False)
+                for kk in ("maxtime", "clockq", "clock0", "stopval", "xtol_abs", "ftol_rel", "xw", "inj", "injc"):
+                    p.pop(kk, None)
+                if aid in A.d["eq"] and rep != 1:
+                    p["eq"] = "s:0:%s:%s:%d" % (hexd(rng.choice([0.0, 1e-6])), hexd(rng.uniform(-0.3, 0.3)), 7)
+                    if rep == 2:
+                        p.pop("ineq", None)
+                p["xtol_rel"] = rng.choice([1e-3, 1e-6])
+                if rep == 0:
+                    p["stopval"] = 1e30        # every value meets it: the run ends at the first point the algorithm judges feasible
+                p["obj"] = rng.choice([0, 1])
+                p["quietx"] = 1
+                conv.append(p)
         cruns, _ = swrap.run_specs(bdir, [problems.to_line(p) for p in conv], env=env)
         for p, r in zip(conv, cruns):
             T = len(r.calls)
             if r.status != "ok" or r.R is None or T < 3 or r.R.get("ret") not in ("1", "2", "3", "4"):
                 continue
-            for k in (T, T - 1, T - 2):
+            for k in ((T, T - 1, T - 2) if not ("ineq" in p or "eq" in p) else (T, T - 1, T - 2, T - 3, T - 4)):
+                if k < 1:
+                    continue
                 q = dict(p)
                 q.pop("quietx", None)
                 q["stopat"] = k
